@@ -236,6 +236,11 @@ def classify_harness(unit_expect, r):
     sat = [c for c in checks if c.get("status") == "Satisfied"]
     if unsupported:
         return "undecided", "tool limitation, not a verdict: " + unsupported[0]["description"][:200]
+    hbug = [c for c in fails if (c.get("description") or "").strip('"').startswith("harness:")]
+    if hbug:
+        # an assertion about the harness's own bookkeeping (ledger size, reference iterator
+        # exhausted ...) failed: the harness is wrong for this instance, nothing is decided
+        return "broken", "harness self-check failed: " + hbug[0]["description"]
     if unit_expect["kind"] == "pass":
         real = [c for c in fails if c not in unwind_fail]
         if real:
